@@ -8,6 +8,50 @@ def run(tier):
     h = hostile.run_hostile('C05', tier, v)
     cov = hostile.coverage(h, 'Oracle: automaton stepped on every callback (rank order start<line<headers<body<trailer<complete, at-most-once '
                               'completion, TRANSACTION_COMPLETE only with both sides complete and nothing after it) and progress monotonicity sampled after every API call.')
+    # well-formed slice: for generated well-formed exchanges (chunked bodies with and without trailers, interim responses, pipelining,
+    # every chunking style) the raw header/trailer data hooks are held to the protocol order too: nothing of a side's raw data after
+    # that side's COMPLETE callback (on hostile input the unchanged parser does deliver trailer data late when a stream is cut off)
+    import json, os
+    from .. import build, grammar, hxb, oracle
+    bdir = build.build('asan')
+    wd = os.path.join(fw.OUT, 'work', 'C05')
+    n = 24000 if tier == 'quick' else 480000
+    cmds = []
+    for s in range(fw.NPROC):
+        cases = []
+        for i in range(s, n, fw.NPROC):
+            ex = grammar.gen_exchange(fw.seed() * 1000003 + i, {'res_fold': True, 'max_body': 200, 'p_interim': 0.1})
+            r = grammar.Rng(fw.seed() * 7919 + i)
+            kind, ops = oracle.schedules(ex, r)
+            if r.chance(0.7):
+                nops = []
+                for op in ops:
+                    if op[1] is not None and len(op[1]) > 2:
+                        k = r.pick([1, 2, 5, 40]) if r.chance(0.5) else len(op[1])
+                        if k < len(op[1]):
+                            nops.extend((op[0], op[1][j:j + k]) for j in range(0, len(op[1]), k))
+                            continue
+                        cut = r.randrange(1, len(op[1]))
+                        nops += [(op[0], op[1][:cut]), (op[0], op[1][cut:])]
+                    else:
+                        nops.append(op)
+                ops = nops
+            cases.append((i, {'PERSONALITY': r.randrange(10), 'STRICT_RAW': 1, 'URLENC_PARSER': r.randrange(2), 'AUTO_DESTROY': r.randrange(2), 'TX_HOOKS': r.randrange(2)}, ops))
+        path = os.path.join(wd, 'wf%d.hxb' % s)
+        hxb.write_batch(path, cases)
+        cmds.append([bdir + '/hx', 'run', path, '--crash-dir', wd])
+    wf = fw.run_many(cmds)
+    v.add_crashes(wf, 'C01')
+    wf_runs = 0
+    for rr in wf:
+        for l in rr['lines']:
+            if l.startswith('V '):
+                d = json.loads(l[2:])
+                for pv in d.get('viol', []):
+                    v.add(pv[0], pv[1], 'well-formed slice, case %s: %s' % (d.get('id'), pv[2]), None)
+            elif l.startswith('S '):
+                wf_runs += json.loads(l[2:]).get('runs', 0)
+    cov['well_formed_slice_runs'] = wf_runs
     st = h['stats']
     cbs = sum((st.get('callbacks') or {}).values())
     return v.finish(cov, assumptions=['runs in which a scripted callback told the parser to STOP/ERROR are judged up to that point only',
